@@ -6,7 +6,7 @@
    Part 1: definitions, a single transfer, the ballot loop. *)
 From Coq Require Import ZArith List Bool String Lia ZifyBool Permutation.
 From Droop Require Import Model.KernelBase Model.Str Model.Arith Model.Prelude Model.State Model.Prims
-  Model.RulesGregory Proofs.Zlike Proofs.Gregory Proofs.Status Proofs.SortLemmas Proofs.Forward Proofs.ForwardOps.
+  Model.RulesGregory Proofs.CmdMeta Proofs.Zlike Proofs.Gregory Proofs.Status Proofs.SortLemmas Proofs.Forward Proofs.ForwardOps.
 Import ListNotations.
 Open Scope Z_scope.
 
@@ -970,6 +970,200 @@ Proof.
     apply gh_fold_tdo; [exact H1|rewrite Ecr1; exact Hc|]. intros c Hcl. split; [rewrite Eid1; apply Hl; exact Hcl|apply HD; exact Hcl].
   - pose proof (gh_defeat_low (bt_simple A cfg "defeat") "Defeat" s (bt_simple_logs _) (bt_simple_ok A cfg _) H Hc) as G.
     unfold defeat_low in G. rewrite El in G. exact (G Hcf).
+Qed.
+
+
+(* ---------- the start of a count ---------- *)
+Definition bsum (bs : list ballot) : Z := fold_right (fun b acc => bval b + acc) 0 bs.
+
+Record Pre (s : est) : Prop := {
+  p_nd : NoDup (map (@cid A) (cands s));
+  p_zero : forall c, In c (cands s) -> R (cvote c) = 0;
+  p_wfb : Forall wfb (ballots s);
+  p_B : bsum (ballots s) <= B;
+  p_np : forall c, In c (cands s) -> is_pending A c = false;
+  p_wd : forall c, In c (cands s) -> cst c = Withdrawn -> stand (ballots s) (cid c) = 0;
+  p_act : Forall snap_ok (actions s)
+}.
+
+Definition ic_step (s : est) (b : ballot) : est :=
+  match top_rank A b with Some c => add_vote A c (bvote A b) s | None => set_crash s AttributeError end.
+
+Lemma tsum_add_le (s : est) i x : NoDup (map (@cid A) (cands s)) -> 0 <= R x ->
+  tot_votes A S ZL (add_vote A i x s) <= tot_votes A S ZL s + R x.
+Proof.
+  intros Hnd Hx. unfold tot_votes, add_vote, upd. cbn [cands set_cands].
+  destruct (in_dec Z.eq_dec i (map (@cid A) (cands s))) as [Hin|Hn].
+  - rewrite (tot_add_vote A S ZL (cands s) i x Hnd Hin). lia.
+  - rewrite (tot_upd_other A S ZL (cands s) i x Hn). lia.
+Qed.
+
+Lemma ic_fold bs : forall s, NoDup (map (@cid A) (cands s)) -> Forall wfb bs ->
+  let s' := fold_left ic_step bs s in
+  map (@cid A) (cands s') = map (@cid A) (cands s) /\
+  stl (cands s') = stl (cands s) /\ ballots s' = ballots s /\ quota s' = quota s /\ actions s' = actions s /\
+  (crashed s' = false -> tot_votes A S ZL s' <= tot_votes A S ZL s + bsum bs) /\
+  (crashed s' = false -> forall c', In c' (cands s') -> exists c, In c (cands s) /\ cid c = cid c' /\ cst c = cst c' /\ cpend c = cpend c' /\ R (cvote c') = R (cvote c) + stand bs (cid c)).
+Proof.
+  induction bs as [|b t IH]; intros s Hnd Hw; cbn [fold_left].
+  - repeat split; auto; try (cbn; lia). intros _ c' Hc'. exists c'. repeat split; auto. cbn. lia.
+  - inversion Hw as [|? ? Hb Ht]; subst.
+    assert (Hnd1: NoDup (map (@cid A) (cands (ic_step s b)))).
+    { unfold ic_step. destruct (top_rank A b); [rewrite cids_add_vote|]; exact Hnd. }
+    destruct (IH (ic_step s b) Hnd1 Ht) as (E1 & E2 & E3 & E4 & E5 & Htot & Hc). cbv zeta in *.
+    assert (Hs1: map (@cid A) (cands (ic_step s b)) = map (@cid A) (cands s) /\ stl (cands (ic_step s b)) = stl (cands s) /\
+                 ballots (ic_step s b) = ballots s /\ quota (ic_step s b) = quota s /\ actions (ic_step s b) = actions s).
+    { unfold ic_step. destruct (top_rank A b); [|repeat split]. split; [apply cids_add_vote|]. split; [|repeat split].
+      unfold add_vote, upd. cbn [cands set_cands]. apply stl_upd_same. intros c0; repeat split. }
+    destruct Hs1 as (F1 & F2 & F3 & F4 & F5).
+    split; [congruence|]. split; [congruence|]. split; [congruence|]. split; [congruence|]. split; [congruence|].
+    assert (Hcr: crashed (fold_left ic_step t (ic_step s b)) = false -> exists c, top_rank A b = Some c).
+    { intros Hf. destruct (top_rank A b) as [c|] eqn:Et; [eauto|]. exfalso.
+      assert (E: forall l s0, crashed s0 = true -> crashed (fold_left ic_step l s0) = true).
+      { clear. induction l as [|x l IHl]; intros s0 H; cbn [fold_left]; [exact H|]. apply IHl. unfold ic_step.
+        destruct (top_rank A x); [exact H|apply sticky_set_crash]. }
+      rewrite E in Hf; [discriminate|]. unfold ic_step. rewrite Et. apply sticky_set_crash. }
+    split.
+    + intros Hf. destruct (Hcr Hf) as [c Et]. specialize (Htot Hf).
+      assert (Es: ic_step s b = add_vote A c (bvote A b) s) by (unfold ic_step; rewrite Et; reflexivity). rewrite Es in *.
+      pose proof (tsum_add_le s c (bvote A b) Hnd (bval_nonneg b Hb)) as Hle. cbn [bsum fold_right]. fold (bsum t). unfold bval at 1. lia.
+    + intros Hf c' Hc'. destruct (Hcr Hf) as [c Et]. destruct (Hc Hf c' Hc') as (c1 & Hc1 & Eid & Est & Epd & Ev).
+      assert (Es: ic_step s b = add_vote A c (bvote A b) s) by (unfold ic_step; rewrite Et; reflexivity). rewrite Es in Hc1.
+      destruct (in_add_vote _ _ _ _ Hc1) as (c0 & Hc0 & [[Ei ->]|[Ei ->]]).
+      * exists c0. split; [exact Hc0|]. cbn [cid cst cpend cvote with_vote] in *. split; [exact Eid|]. split; [exact Est|]. split; [exact Epd|]. rewrite Ev, (r_add A S ZL), stand_cons.
+        unfold top_is. rewrite Et. assert (E: (c =? cid c0) = true) by lia. rewrite E. unfold bval. lia.
+      * exists c0. split; [exact Hc0|]. split; [exact Eid|]. split; [exact Est|]. split; [exact Epd|]. rewrite Ev, stand_cons. unfold top_is. rewrite Et.
+        assert (E: (c =? cid c0) = false) by lia. rewrite E. lia.
+Qed.
+
+
+Lemma tsum_zero (l : list cand) : (forall c, In c l -> R (cvote c) = 0) -> fold_right (fun c acc => R (cvote c) + acc) 0 l = 0.
+Proof. induction l as [|c l IH]; intros H; [reflexivity|]. cbn [fold_right]. rewrite (H c (or_introl eq_refl)), IH; [lia|]. intros c' Hc'. apply H. right; exact Hc'. Qed.
+
+Lemma gh_start q (s : est) : Pre s -> 0 <= R q ->
+  crashed (start_count A (Ok q) s) = false -> GH (start_count A (Ok q) s).
+Proof.
+  intros P Hq Hc. unfold start_count in *. unfold initial_count in *.
+  change (fold_left _ (ballots (set_quota s q)) (set_quota s q)) with (fold_left ic_step (ballots s) (set_quota s q)) in *.
+  destruct (ic_fold (ballots s) (set_quota s q) (p_nd _ P) (p_wfb _ P)) as (E1 & E2 & E3 & E4 & E5 & Htot & Hcs). cbv zeta in *.
+  set (s1 := fold_left ic_step (ballots s) (set_quota s q)) in *.
+  assert (Hc1: crashed s1 = false) by exact Hc.
+  specialize (Htot Hc1). specialize (Hcs Hc1). cbn [cands ballots quota actions set_quota] in *.
+  assert (HV0: R (V0 A) = 0) by (unfold V0; rewrite (r_of_int A S ZL); lia).
+  split.
+  - constructor; cbn [cands ballots quota exhausted set_exhausted].
+    + rewrite E1. exact (p_nd _ P).
+    + rewrite E3. exact (p_wfb _ P).
+    + intros c' Hc'. destruct (Hcs c' Hc') as (c & Hcin & Eid & _ & _ & Ev). left. rewrite E3, Ev, (p_zero _ P c Hcin), Eid. lia.
+    + unfold Gregory.total. cbn [exhausted set_exhausted]. change (tot_votes A S ZL (set_exhausted s1 (V0 A))) with (tot_votes A S ZL s1).
+      unfold tot_votes in Htot at 2. cbn [cands set_quota] in Htot. rewrite (tsum_zero (cands s) (p_zero _ P)) in Htot.
+      pose proof (p_B _ P). lia.
+    + intros c' Hc' Hp. destruct (Hcs c' Hc') as (c & Hcin & _ & Est & Epd & _).
+      assert (is_pending A c = true) by (unfold is_pending, in_state in *; rewrite Est, Epd; exact Hp). rewrite (p_np _ P c Hcin) in H. discriminate.
+    + intros c' Hc' Hw. destruct (Hcs c' Hc') as (c & Hcin & Eid & Est & _ & Ev). rewrite Ev, (p_zero _ P c Hcin), (p_wd _ P c Hcin); [lia|congruence].
+    + rewrite E4. exact Hq.
+    + intros c' Hc'. destruct (Hcs c' Hc') as (c & Hcin & _ & _ & _ & Ev). rewrite Ev, (p_zero _ P c Hcin). pose proof (stand_nonneg (ballots s) (cid c) (p_wfb _ P)). lia.
+  - cbn [actions set_exhausted]. rewrite E5. exact (p_act _ P).
+Qed.
+
+
+(* ---------- lifting to whole runs ---------- *)
+Definition GN (s : est) : Prop := GH s /\ crashed s = false.
+Fixpoint pnc (c : cmd est) : Prop :=
+  match c with
+  | Do f => forall s, GH s -> crashed s = false -> crashed (f s) = false -> GH (f s)
+  | Seq a b | Ite _ a b => pnc a /\ pnc b
+  | While _ b => pnc b
+  | _ => True
+  end.
+Lemma pnc_triple c : pnc c -> triple est (@crashed A) GN c GN GN GN.
+Proof.
+  induction c as [f|a IHa b IHb|g a IHa b IHb|g body IH| | |]; cbn [pnc]; intros H.
+  - apply t_do_nc. intros s [H1 H2] Hc. split; [apply H; assumption|exact Hc].
+  - destruct H as [Ha Hb]. eapply t_seq; [apply IHa; exact Ha|apply IHb; exact Hb].
+  - destruct H as [Ha Hb]. apply t_ite; (eapply t_pre; [|first [apply IHa; exact Ha|apply IHb; exact Hb]]); intros s [Hs _]; exact Hs.
+  - eapply t_post; [|apply (t_while est (@crashed A) GN GN)].
+    + intros s [Hs|[Hs _]]; exact Hs.
+    + eapply t_pre; [|apply IH; exact H]. intros s [Hs _]; exact Hs.
+  - apply t_break'. auto.
+  - apply t_continue'. auto.
+  - apply t_skip'. auto.
+Qed.
+
+Lemma gh_unpend_all (s : est) : GH s -> GH (unpend_all A cfg s).
+Proof. intros H. unfold unpend_all. apply gh_fold; [|exact H]. intros; apply gh_unpend; assumption. Qed.
+Lemma gh_elect_or_defeat (s : est) : GH s -> GH (elect_or_defeat_remaining A cfg s).
+Proof.
+  intros H. unfold elect_or_defeat_remaining. apply gh_fold; [|exact H]. intros s0 c H0.
+  destruct (_ <? _); [apply gh_elect_np|apply gh_defeat]; exact H0.
+Qed.
+
+Hypothesis Hex : exact A = false.
+Lemma has_quota_exact_le (s : est) c : has_quota_exact A s c = true -> R (quota s) <= R (cvote c).
+Proof. unfold has_quota_exact. rewrite Hex, (r_gev_exact A S ZL Hex). lia. Qed.
+Lemma ge_quota_le (s : est) c : ge_quota A s c = true -> R (quota s) <= R (cvote c).
+Proof. unfold ge_quota. rewrite (r_gev_exact A S ZL Hex). lia. Qed.
+
+Local Open Scope cmd_scope.
+Ltac pnc_split := repeat match goal with |- _ /\ _ => split | |- True => exact I end.
+Lemma pnc_wigm_loop :
+  pnc (While (guard_main A cfg) (
+    Do (new_round A cfg) ;;
+    Do (elect_with_quota A cfg (has_quota_exact A) (fun _ _ => true) None (fun _ => true)) ;;
+    Ite (fun s => nonempty (pendings A s))
+      (Do (transfer_high_surplus A cfg (bt_simple A cfg "surplus") (rew_wigm A)))
+      (Ite (fun s => nonempty (hopefuls A s)) (Do (wigm_defeat A cfg)) Skip)) ;;
+  Do (unpend_all A cfg) ;;
+  Do (elect_or_defeat_remaining A cfg)).
+Proof.
+  cbn [pnc]. pnc_split.
+  - intros s H _ _. apply gh_new_round; exact H.
+  - intros s H _ _. apply gh_elect_with_quota; [intros c; apply has_quota_exact_le|exact H].
+  - intros s H Hc Hcf. apply gh_transfer_high; try assumption; [apply bt_simple_logs|apply bt_simple_ok|apply rew_wigm_ok].
+  - intros s H Hc Hcf. apply gh_wigm_defeat; assumption.
+  - intros s H _ _. apply gh_unpend_all; exact H.
+  - intros s H _ _. apply gh_elect_or_defeat; exact H.
+Qed.
+
+
+Hypothesis Hnb : 0 <= cf_nballots cfg.
+Hypothesis Hns : 0 <= cf_nseats cfg.
+
+Lemma droop_quota_eps_nonneg q : droop_quota_eps A cfg = Ok q -> 0 <= R q.
+Proof.
+  unfold droop_quota_eps. pose proof (S_pos A S ZL) as HS.
+  destruct (Z.eq_dec (R (of_int A (cf_nseats cfg + 1))) 0) as [Hz|Hnz].
+  - rewrite (r_divv0 A S ZL _ _ Hz). discriminate.
+  - destruct (r_divv A S ZL (of_int A (cf_nballots cfg)) (of_int A (cf_nseats cfg + 1)) Hnz) as (c & E & Ec). rewrite E.
+    intros H; inversion H; subst. rewrite (r_add A S ZL), Ec, !(r_of_int A S ZL). pose proof (r_eps A S ZL).
+    assert (0 <= cf_nballots cfg * S * S / ((cf_nseats cfg + 1) * S)) by (apply Z.div_pos; nia). lia.
+Qed.
+Lemma wigm_quota_nonneg q : wigm_quota A cfg = Ok q -> 0 <= R q.
+Proof.
+  unfold wigm_quota. pose proof (S_pos A S ZL) as HS. destruct (cf_integer_quota cfg).
+  - intros H. assert (E: q = of_int A (1 + cf_nballots cfg / (cf_nseats cfg + 1))) by congruence. rewrite E, (r_of_int A S ZL).
+    assert (0 <= cf_nballots cfg / (cf_nseats cfg + 1)) by (apply Z.div_pos; lia). apply Z.mul_nonneg_nonneg; lia.
+  - rewrite Hex. apply droop_quota_eps_nonneg.
+Qed.
+Lemma integer_quota_nonneg : 0 <= R (integer_droop_quota A cfg).
+Proof.
+  unfold integer_droop_quota. pose proof (S_pos A S ZL) as HS. rewrite (r_of_int A S ZL).
+  assert (0 <= cf_nballots cfg / (cf_nseats cfg + 1)) by (apply Z.div_pos; lia). apply Z.mul_nonneg_nonneg; lia.
+Qed.
+
+Lemma start_triple (qr : res (T A)) tg msg (P' : est -> Prop) :
+  (forall q, qr = Ok q -> 0 <= R q) ->
+  triple est (@crashed A) Pre (Do (fun s => log_action A cfg tg msg (start_count A qr s))) GN GN GN.
+Proof.
+  intros Hq. apply t_do_nc. intros s P Hc. rewrite crashed_log in Hc. destruct qr as [q|e].
+  - split; [apply gh_log, gh_start; [exact P|apply Hq; reflexivity|exact Hc]|rewrite crashed_log; exact Hc].
+  - unfold start_count in Hc. rewrite sticky_set_crash in Hc. discriminate.
+Qed.
+
+Theorem wigm_triple : triple est (@crashed A) Pre (wigm A cfg) GN GN GN.
+Proof.
+  unfold wigm. eapply t_seq; [apply (start_triple _ _ _ (fun _ => True)); apply wigm_quota_nonneg|].
+  apply pnc_triple. exact pnc_wigm_loop.
 Qed.
 
 End Ops.
